@@ -436,6 +436,60 @@ fn folds<T: Tier>(rep: &mut Report) {
         },
     );
 }
+/// the same folds over signed zeros (float tiers): `zero() + (-0.0)` is `+0.0`, so a fold that starts from its first
+/// element instead of zero() (or from one() * first) is visible only here
+fn folds_zero<T: Tier + num_traits::Float>(rep: &mut Report) {
+    let ls = lists(3);
+    rep.cases(
+        "folds/signed-zero",
+        T::NAME,
+        "every list of length 0..3 over {all components -0.0, components alternating -0.0/+0.0, all +0.0}; Sum / Product over values and references vs the left fold from zero() / one(), compared bit for bit",
+        ls.len(),
+        Guard::states(40).distinct(3),
+        |i, ctx| {
+            let l = &ls[i];
+            ctx.describe(|| format!("list of signed-zero letters {:?} over {}", l, T::NAME));
+            ctx.out(l);
+            let z = |k: usize, j: usize| -> T {
+                match k {
+                    0 => T::neg_zero(),
+                    1 => if j % 2 == 0 { T::neg_zero() } else { T::zero() },
+                    _ => T::zero(),
+                }
+            };
+            macro_rules! sum {
+                ($name:expr, $Ty:ty, $mk:expr) => {{
+                    let items: Vec<$Ty> = l.iter().map(|&k| $mk(k)).collect();
+                    let fold = items.iter().fold(<$Ty>::zero(), |a, b| a + *b);
+                    same(ctx, &format!("{}/sum", $name), "values", &items.iter().copied().sum::<$Ty>(), &fold);
+                    same(ctx, &format!("{}/sum", $name), "references", &items.iter().sum::<$Ty>(), &fold);
+                }};
+            }
+            macro_rules! product {
+                ($name:expr, $Ty:ty, $mk:expr) => {{
+                    let items: Vec<$Ty> = l.iter().map(|&k| $mk(k)).collect();
+                    let fold = items.iter().fold(<$Ty>::one(), |a, b| a * *b);
+                    same(ctx, &format!("{}/product", $name), "values", &items.iter().copied().product::<$Ty>(), &fold);
+                    same(ctx, &format!("{}/product", $name), "references", &items.iter().product::<$Ty>(), &fold);
+                }};
+            }
+            sum!("Vector1", Vector1<T>, |k| mk_v1::<T>(std::array::from_fn(|j| z(k, j))));
+            sum!("Vector2", Vector2<T>, |k| mk_v2::<T>(std::array::from_fn(|j| z(k, j))));
+            sum!("Vector3", Vector3<T>, |k| mk_v3::<T>(std::array::from_fn(|j| z(k, j))));
+            sum!("Vector4", Vector4<T>, |k| mk_v4::<T>(std::array::from_fn(|j| z(k, j))));
+            sum!("Matrix2", Matrix2<T>, |k| mk_m2::<T>(std::array::from_fn(|c| std::array::from_fn(|r| z(k, c + r)))));
+            sum!("Matrix3", Matrix3<T>, |k| mk_m3::<T>(std::array::from_fn(|c| std::array::from_fn(|r| z(k, c + r)))));
+            sum!("Matrix4", Matrix4<T>, |k| mk_m4::<T>(std::array::from_fn(|c| std::array::from_fn(|r| z(k, c + r)))));
+            sum!("Quaternion", Quaternion<T>, |k| mk_q::<T>(std::array::from_fn(|j| z(k, j))));
+            sum!("Rad", Rad<T>, |k| Rad(z(k, 0)));
+            sum!("Deg", Deg<T>, |k| Deg(z(k, 0)));
+            product!("Matrix2", Matrix2<T>, |k| mk_m2::<T>(std::array::from_fn(|c| std::array::from_fn(|r| z(k, c + r)))));
+            product!("Matrix3", Matrix3<T>, |k| mk_m3::<T>(std::array::from_fn(|c| std::array::from_fn(|r| z(k, c + r)))));
+            product!("Matrix4", Matrix4<T>, |k| mk_m4::<T>(std::array::from_fn(|c| std::array::from_fn(|r| z(k, c + r)))));
+            product!("Quaternion", Quaternion<T>, |k| mk_q::<T>(std::array::from_fn(|j| z(k, j))));
+        },
+    );
+}
 fn folds_int<D: Dom>(rep: &mut Report) {
     let ls = lists(3);
     rep.cases("folds/vectors", D::NAME, "every list of length 0..3 over a 3-element alphabet; Sum over values and references", ls.len(), Guard::states(40).distinct(10), |i, ctx| {
@@ -661,6 +715,8 @@ fn main() {
     folds::<f64>(&mut rep);
     folds::<f32>(&mut rep);
     folds::<Ex>(&mut rep);
+    folds_zero::<f64>(&mut rep);
+    folds_zero::<f32>(&mut rep);
     folds_int::<i32>(&mut rep);
     folds_int::<u8>(&mut rep);
     programs(&mut rep);
